@@ -128,6 +128,21 @@ fn scenario(rec: &mut Rec, ctx: &Ctx, idx: u64, rng: &mut ChaCha20Rng) {
   rec.case(&("scenario", t, groups, idx));
   rec.evn("reports_generated", messages.len() as u64);
   let server = AggregationServer::new(t, &epoch);
+  if idx % 4 == 1 && !messages.is_empty() {
+    // a server lives across batches: an earlier batch held a corrupted report for
+    // one of the measurements (that call fails; the honest batches afterwards must not)
+    let mut poisoned: Vec<Message> = messages.clone();
+    for k in 0..poisoned.len().min(3) {
+      let mut b = poisoned[k].to_bytes();
+      let l = b.len();
+      b[l - 40] ^= 0x01; // inside the share's authentication tag
+      if let Some(m) = Message::from_bytes(&b) {
+        poisoned[k] = m;
+      }
+    }
+    rec.ev("poisoned_batches_before_honest");
+    let _ = guarded(|| server.retrieve_outputs(&poisoned));
+  }
   let pools: Vec<usize> = if ctx.flag("smallpools") { vec![1, 3] } else { vec![1, 2, 3, 4, 8, 16] };
   let perms = if ctx.flag("tiny") { 1 } else { 3 };
   let mut reference: Option<Canon> = None;
